@@ -193,20 +193,22 @@ def check_c04(tier, seed):
     v = Verdict("C04", tier, seed)
     st = new_stage()
     merged = Merged()
-    lib = mkbuild("shipped").build(st)
-    libw = mkbuild("w32").build(st)
+    lib, libw, libb = run_parallel([lambda n=n: mkbuild(n).build(st, jobs=5) for n in ("shipped", "w32", "be0")], workers=3)
     mc = run_mc(st, lib, "h_sched.c", "c04", tier, seed, merged, v, nshards=7)
     d1 = run_dp(st, lib, ["h_dp.c"], "c04", tier, seed, merged, v)
     d2 = run_dp(st, libw, ["h_dp.c"], "c04", tier, seed, merged, v)
+    d3 = run_dp(st, libb, ["h_dp.c"], "c04", tier, seed, merged, v, nshards=8)     # byte-order-neutral arms of the tweak code
+    mcb = run_mc(st, libb, "h_sched.c", "c04", "quick", seed, merged, v, nshards=4)  # the (non-CTR) closure on that build, quick alphabet
+    d2.evaluations += d3.evaluations; mc.evaluations += mcb.evaluations
     closed = all(val == 0 for k, val in merged.notes.items() if k.startswith("kinds_cut_by_depth_cap"))
     cov = mc_cov(merged,
                  "closure of the tweakable SKINNY-128 and SKINNY-64 schedules (directly and inside CTR objects of every back end) under {set_tweaked_key(2 keys x 2 sizes), "
                  "set_tweak over TWEAKS(B) = Z,F,R1,R2, R1 at every length 1..B-1, NULL at lengths 1 and B (thorough: every byte value at every position), invalid sizes}; "
                  "every reachable state x every alphabet element executed; oracle on every transition: defined schedule image == fresh set_tweaked_key + one set_tweak(last), "
                  "round count as specified, encrypt/decrypt of a block family == specification cipher with TK1 = zero-padded last tweak and the tweak-domain constant",
-                 {"builds": [lib.describe(), libw.describe()], "oracle_block_evaluations": mc.evaluations,
+                 {"builds": [lib.describe(), libw.describe(), libb.describe()], "oracle_block_evaluations": mc.evaluations,
                   "fresh_schedule_family_evaluations": d1.evaluations + d2.evaluations,
-                  "fresh_schedule_rule": "BG/BYTE/PAIR/BIT families over tweak||key||block for the four tweakable variants x {encrypt, decrypt} x {set_tweak, fresh schedule} against the specification model, on the 64-bit and 32-bit word builds",
+                  "fresh_schedule_rule": "BG/BYTE/PAIR/BIT families over tweak||key||block for the four tweakable variants x {encrypt, decrypt} x {set_tweak, fresh schedule} against the specification model, on the 64-bit-word, 32-bit-word and byte-order-neutral builds (the closure also runs on the last one with the quick alphabet)",
                   "evaluations": merged.evaluations + merged.transitions, "distinct_nontrivial": merged.distinct})
     return v.finish("model_checking", cov, ["reference ref/ref_skinny.c (tweak-domain constant cross-checked against the Arduino port by C19)",
                                             "tweaks outside the alphabet are not covered"], exhaustive=closed)
